@@ -16,6 +16,8 @@ class State:
         self.calls = []           # (name, args) of every backend call, in order
         self.fault_at = None      # index into calls at which a USBError is raised
         self.fault_exc = None
+        self.unplug_at = None     # index into calls from which on EVERY backend call (and the serial number lookup) raises USBErrorNoDevice
+        self.unplugged = False
         self.ctx = None
         self.clock = None
 
@@ -48,6 +50,17 @@ def make_usb1():
     class USBErrorPipe(USBError):
         pass
 
+    class USBErrorAccess(USBError):
+        pass
+
+    class USBErrorNotSupported(USBError):
+        pass
+
+    class USBErrorOverflow(USBError):
+        pass
+
+    m.USBErrorAccess, m.USBErrorNotSupported, m.USBErrorOverflow = USBErrorAccess, USBErrorNotSupported, USBErrorOverflow
+
     m.USBError, m.USBErrorTimeout, m.USBErrorNotFound, m.USBErrorNoDevice, m.USBErrorBusy, m.USBErrorIO, m.USBErrorPipe = (
         USBError, USBErrorTimeout, USBErrorNotFound, USBErrorNoDevice, USBErrorBusy, USBErrorIO, USBErrorPipe)
     m.CLASS_VENDOR_SPEC = 0xFF
@@ -61,6 +74,9 @@ def make_usb1():
         st.calls.append((name, args))
         if st.fault_at is not None and i == st.fault_at:
             raise (st.fault_exc or USBErrorIO)(-1)
+        if st.unplug_at is not None and i >= st.unplug_at:
+            st.unplugged = True
+            raise USBErrorNoDevice(-4)
 
     class Endpoint:
         def __init__(self, address, maxpacket=512):
@@ -157,6 +173,8 @@ def make_usb1():
             return list(self.ports)
 
         def getSerialNumber(self):
+            if st.unplugged:
+                raise USBErrorNoDevice(-4)
             return self.serial
 
     class USBContext:
